@@ -330,7 +330,9 @@ def full_pool(args) -> Dict[str, Any]:
             env.apply(["conn", s])
             env.apply(ev_send(s, fr(tc, P.MT_CONNECT_V2, P.p_connect_v2(0, 0, 0, 0, 9, b""))))
             env.settle()
-            acks = [k for k in env.received[s] if k[0] == "ack"]
+            if env.dead:
+                break
+            acks = [k for k in env.received.get(s, []) if k[0] == "ack"]
             if len(acks) != 1:
                 probs.append({"prop": "C07", "kind": "pool-not-filled", "at": i})
                 break
@@ -350,7 +352,9 @@ def full_pool(args) -> Dict[str, Any]:
                 env.apply(["conn", s])
                 env.apply(ev_send(s, fr(tc, P.MT_CONNECT_V2, P.p_connect_v2(0, 0, 0, 0, 9, b""))))
                 env.settle()
-                acks = [a for a in env.received[s] if a[0] == "ack"]
+                if env.dead:
+                    break  # (the manager's death is among env.problems)
+                acks = [a for a in env.received.get(s, []) if a[0] == "ack"]
                 if k == 0:
                     if len(acks) != 1 or acks[0][1] in held.values() or not (P.DYN_MOD_ID_START <= acks[0][1] < P.MAX_MODULES):
                         probs.append({"prop": "C07", "kind": "dynamic-id-not-reusable", "leaver": which, "freed": freed, "acks": [list(a) for a in acks]})
